@@ -240,6 +240,59 @@ def nontrivial(case):
     return optional and all(len(d["g"]) >= 2 for d in case["datasets"])
 
 
+def first_eval_groups(case, log, data=None):
+    from glotaran.optimization.optimize import optimize
+    from vf.core import CaseTimeout, time_limit
+
+    del log[:]
+    try:
+        with time_limit(30):
+            optimize(S.build_scheme(case, data=data, maximum_number_function_evaluations=1), verbose=False, raise_exception=True)
+    except (Exception, CaseTimeout):
+        return None
+    return log[0]["groups"] if log and log[0]["penalty"] is not None else None
+
+
+def metamorphic(case, rec, log):
+    """Group independence and exact weight scaling, observed on the first objective evaluation."""
+    groups = [g for g in case["groups"] if O.group_datasets(case, g)]
+    base = first_eval_groups(case, log)
+    if base is None:
+        return
+    if len(groups) == 2:
+        # change every data value of group 2: group 1's slice must be bit-identical
+        c2 = S.jsonable_case(case)
+        for d in c2["datasets"]:
+            if d["group"] == groups[1]:
+                d["dseed"] = d["dseed"] + 1
+        other = first_eval_groups(c2, log)
+        if other is not None:
+            rec.count("metamorphic:group-independence")
+            if not np.array_equal(base[0], other[0], equal_nan=True):
+                rec.violation("groups-not-independent", S.jsonable_case(case), "changing the data of one dataset group changed the penalty entries of the other group")
+    # scale one dataset's weight by 2 (exact in floating point): exactly its entries double (unlinked, VP, no penalties)
+    cands = [d for d in case["datasets"] if d.get("weight") == "dataset" and not d.get("global_megacomplex")
+             and case["groups"][d["group"]]["link_clp"] is False and case["groups"][d["group"]]["residual_function"] == "variable_projection"]
+    if cands and not case.get("penalties"):
+        ds = cands[0]
+        data = S.build_data(case)
+        data[ds["label"]]["weight"] = data[ds["label"]]["weight"] * 2.0
+        other = first_eval_groups(case, log, data=data)
+        if other is not None:
+            gi = groups.index(ds["group"])
+            rec.count("metamorphic:weight-scaling")
+            # entries of this dataset: located by order of the group's datasets (unlinked: dataset after dataset)
+            start = 0
+            for d in O.group_datasets(case, ds["group"]):
+                n = len(d["t"]) * len(d["g"])
+                if d["label"] == ds["label"]:
+                    a, b = base[gi][start:start + n], other[gi][start:start + n]
+                    rest_same = np.array_equal(np.delete(base[gi], np.s_[start:start + n]), np.delete(other[gi], np.s_[start:start + n]), equal_nan=True)
+                    if not (np.allclose(b, 2.0 * a, rtol=1e-12, atol=1e-300) and rest_same):
+                        rec.violation("weight-scaling", S.jsonable_case(case), f"doubling the weight of {ds['label']} did not exactly double its penalty entries and leave all others unchanged")
+                start += n
+
+
 def plan(tier, seed):
     n = {"quick": 16, "thorough": 32}[tier]
     return [{"shard": i, "n": {"quick": 60, "thorough": 1200}[tier]} for i in range(n)]
@@ -266,6 +319,8 @@ def run_shard(spec, rec):
         if ok and rng.integers(2):
             far = {l: float(rng.uniform(0.4, 2.5)) for l in O.free_labels(jc)}
             judge_case(jc, rec, log, start_factor=far)
+        if ok and i % 3 == 0:
+            metamorphic(jc, rec, log)
         feats = [f"{k}={v}" for k, v in case["features"].items() if k in ("link_clp", "weights", "axes", "nnls", "full_model", "index_dependent")]
         rec.case(signature(case), nontrivial(case), sample=jc if i == 0 else None, features=feats)
 
